@@ -1,14 +1,14 @@
 import Verif.Props.C08
 open Verif.Props.C08
-#print axioms number_length_exact
-#print axioms number_length_partial
+#print axioms number_length
 #print axioms number_value
 #print axioms number_grammar
+#print axioms number_round
 #print axioms number_shape
 #print axioms decimal_length
 #print axioms decimal_value
 #print axioms decimal_grammar
+#print axioms decimal_round
 #print axioms decimal_shape
 #print axioms holds_sound
-#print axioms decimal_round
-#print axioms number_round_partial
+#print axioms number_json_hypotheses
